@@ -38,11 +38,11 @@ def plans(run):
     quick = run.quick
     out = []
     base = {'overrides': ['before', 'iter', 'stop']}
-    seeds = [(run.seed * 3 + i) % 50 for i in range(3 if quick else 8)] + [3]
+    seeds = [(run.seed * 3 + i) % 50 for i in range(3 if quick else 5)] + [3]
     for sd in seeds:
-        for L in ((3, 5) if quick else (2, 3, 4, 5, 6)):
+        for L in ((3, 5) if quick else (2, 3, 4, 5)):
             for Ks in ((L - 1, L + 1) if quick else (1, L - 1, L, L + 1)):
-                if Ks < 1 or (quick and L == 5 and Ks > L):
+                if Ks < 1 or (L == 5 and Ks > L):
                     continue
                 kpre = max(0, max(Ks, L) - 2)        # the last two values of the longest variant are arbitrary, the rest a reachable prefix
                 variants = [{'script': [('solve',)]}, {'script': [('solve',), ('solve',)]}]
@@ -58,7 +58,7 @@ def plans(run):
                             % (sd, kpre, L, Ks)))
     # iterations carried past the moment the accuracy criterion first holds (concrete eps so that the moment lies in the
     # reachable prefix); afterwards Solve must add nothing.  Fixed prefix functions (cost differs a lot between them).
-    for sd in ((1, 2) if quick else (1, 2, 5, 6, 9)):
+    for sd in ((1, 2) if quick else (1, 2, 5)):
         Ks, L = 6, 7
         variants = [{'script': [('solve',)]}, {'script': [('iter', Ks), ('solve',), ('solve',)]},
                     {'script': [('iter', 2), ('iter', Ks - 2), ('results',), ('solve',)]}]
@@ -72,7 +72,7 @@ def main():
     agp.describe(run, what=('method', 'process', 'solver'))
     agp.describe_stubs(run)
     jobs = [(job, p) for p in plans(run)]
-    run.bound(runs='itersLimit 3..6, all compositions of the batch total into <= 3 batches, batch totals below / at / beyond the limit, '
+    run.bound(runs='itersLimit 2..5, all compositions of the batch total into <= 3 batches, batch totals below / at / beyond the limit, '
                    'eps symbolic in (0,2); objective = reachable concrete prefix + arbitrary values in [-1000,1000]; N = 1')
     run.not_covered('runs longer than the bound; N >= 2 (the batching logic does not depend on the dimension); floats')
     run.parallel(jobs)
